@@ -127,8 +127,10 @@ def build_harness(cmd, tags="", race=False, goflags=None):
 def run_srcfacts():
     """regenerate Got/Generated/*.lean and facts.json from REPO; returns facts dict"""
     tool = os.path.join(BIN, "srcfacts")
-    if not os.path.exists(tool):
-        build_tool("srcfacts", os.path.join(VERIF, "tools", "srcfacts"))
+    srcdir = os.path.join(VERIF, "tools", "srcfacts")
+    newest = max(os.path.getmtime(os.path.join(srcdir, f)) for f in os.listdir(srcdir))
+    if not os.path.exists(tool) or os.path.getmtime(tool) < newest:
+        build_tool("srcfacts", srcdir)
     out = os.path.join(BUILD, "facts.json")
     with Lock("srcfacts"):
         p = sh([tool, "-repo", REPO, "-json", out, "-lean", os.path.join(LEAN, "Got", "Generated")], env=GOENV)
